@@ -1,4 +1,9 @@
 
+(** val xorb : bool -> bool -> bool **)
+
+let xorb b1 b2 =
+  if b1 then if b2 then false else true else b2
+
 (** val negb : bool -> bool **)
 
 let negb = function
@@ -4107,6 +4112,291 @@ let matches_content x content =
   | RNoEol t -> Some (list_eqb (utf8_encode t) content)
   | REscaped (_, b) -> Some (list_eqb b content)
   | _ -> None
+
+(** val ends_in_newline : n list -> bool **)
+
+let ends_in_newline b =
+  match rev b with
+  | [] -> false
+  | n0 :: _ ->
+    (match n0 with
+     | N0 -> false
+     | Npos p ->
+       (match p with
+        | XO p0 ->
+          (match p0 with
+           | XI p1 ->
+             (match p1 with
+              | XO p2 -> (match p2 with
+                          | XH -> true
+                          | _ -> false)
+              | _ -> false)
+           | _ -> false)
+        | _ -> false))
+
+(** val assure_newline : n list -> n list **)
+
+let assure_newline b =
+  if ends_in_newline b then b else app b ((Npos (XO (XI (XO XH)))) :: [])
+
+(** val m_equal : n list -> n list -> bool **)
+
+let m_equal expr line =
+  list_eqb (assure_newline expr) line
+
+(** val m_noeol : n list -> n list -> bool **)
+
+let m_noeol =
+  list_eqb
+
+(** val m_escaped : n list -> n list -> bool **)
+
+let m_escaped bytes line =
+  list_eqb bytes (trim_newlines line)
+
+(** val sTAR : n **)
+
+let sTAR =
+  Npos (XO (XI (XO (XI (XO XH)))))
+
+(** val qM : n **)
+
+let qM =
+  Npos (XI (XI (XI (XI (XI XH)))))
+
+(** val glob_match : n list -> n list -> bool **)
+
+let rec glob_match = function
+| [] -> (fun s -> match s with
+                  | [] -> true
+                  | _ :: _ -> false)
+| c :: p' ->
+  if N.eqb c sTAR
+  then let rec star s =
+         (||) (glob_match p' s)
+           (match s with
+            | [] -> false
+            | _ :: s' -> star s')
+       in star
+  else (fun s ->
+         if N.eqb c qM
+         then (match s with
+               | [] -> false
+               | _ :: s' -> glob_match p' s')
+         else (match s with
+               | [] -> false
+               | x :: s' -> (&&) (N.eqb c x) (glob_match p' s')))
+
+type re =
+| Emp
+| Eps
+| Chr of n
+| Any
+| Cls of bool * n list
+| Seq of re * re
+| Alt of re * re
+| Star of re
+
+(** val cls_has : bool -> n list -> n -> bool **)
+
+let cls_has neg cs c =
+  xorb neg (existsb (N.eqb c) cs)
+
+(** val nullable : re -> bool **)
+
+let rec nullable = function
+| Eps -> true
+| Seq (a, b) -> (&&) (nullable a) (nullable b)
+| Alt (a, b) -> (||) (nullable a) (nullable b)
+| Star _ -> true
+| _ -> false
+
+(** val deriv : n -> re -> re **)
+
+let rec deriv c = function
+| Chr d -> if N.eqb c d then Eps else Emp
+| Any -> if N.eqb c (Npos (XO (XI (XO XH)))) then Emp else Eps
+| Cls (neg, cs) -> if cls_has neg cs c then Eps else Emp
+| Seq (a, b) ->
+  if nullable a
+  then Alt ((Seq ((deriv c a), b)), (deriv c b))
+  else Seq ((deriv c a), b)
+| Alt (a, b) -> Alt ((deriv c a), (deriv c b))
+| Star a -> Seq ((deriv c a), (Star a))
+| _ -> Emp
+
+(** val full : re -> n list -> bool **)
+
+let rec full r = function
+| [] -> nullable r
+| c :: s' -> full (deriv c r) s'
+
+(** val cram_glob_re_aux : nat -> n list -> re **)
+
+let rec cram_glob_re_aux fuel p =
+  match fuel with
+  | O -> Eps
+  | S f ->
+    (match p with
+     | [] -> Eps
+     | c :: r ->
+       (match c with
+        | N0 ->
+          if N.eqb c (Npos (XO (XI (XO (XI (XO XH))))))
+          then Seq ((Star Any), (cram_glob_re_aux f r))
+          else if N.eqb c (Npos (XI (XI (XI (XI (XI XH))))))
+               then Seq (Any, (cram_glob_re_aux f r))
+               else Seq ((Chr c), (cram_glob_re_aux f r))
+        | Npos p0 ->
+          (match p0 with
+           | XO p1 ->
+             (match p1 with
+              | XO p2 ->
+                (match p2 with
+                 | XI p3 ->
+                   (match p3 with
+                    | XI p4 ->
+                      (match p4 with
+                       | XI p5 ->
+                         (match p5 with
+                          | XO p6 ->
+                            (match p6 with
+                             | XH ->
+                               (match r with
+                                | [] ->
+                                  if N.eqb c (Npos (XO (XI (XO (XI (XO
+                                       XH))))))
+                                  then Seq ((Star Any),
+                                         (cram_glob_re_aux f r))
+                                  else if N.eqb c (Npos (XI (XI (XI (XI (XI
+                                            XH))))))
+                                       then Seq (Any, (cram_glob_re_aux f r))
+                                       else Seq ((Chr c),
+                                              (cram_glob_re_aux f r))
+                                | c0 :: r0 ->
+                                  if (||)
+                                       ((||)
+                                         (N.eqb c0 (Npos (XO (XI (XO (XI (XO
+                                           XH)))))))
+                                         (N.eqb c0 (Npos (XI (XI (XI (XI (XI
+                                           XH))))))))
+                                       (N.eqb c0 (Npos (XO (XO (XI (XI (XI
+                                         (XO XH))))))))
+                                  then Seq ((Chr c0), (cram_glob_re_aux f r0))
+                                  else Seq ((Chr (Npos (XO (XO (XI (XI (XI
+                                         (XO XH)))))))),
+                                         (cram_glob_re_aux f (c0 :: r0))))
+                             | _ ->
+                               if N.eqb c (Npos (XO (XI (XO (XI (XO XH))))))
+                               then Seq ((Star Any), (cram_glob_re_aux f r))
+                               else if N.eqb c (Npos (XI (XI (XI (XI (XI
+                                         XH))))))
+                                    then Seq (Any, (cram_glob_re_aux f r))
+                                    else Seq ((Chr c), (cram_glob_re_aux f r)))
+                          | _ ->
+                            if N.eqb c (Npos (XO (XI (XO (XI (XO XH))))))
+                            then Seq ((Star Any), (cram_glob_re_aux f r))
+                            else if N.eqb c (Npos (XI (XI (XI (XI (XI XH))))))
+                                 then Seq (Any, (cram_glob_re_aux f r))
+                                 else Seq ((Chr c), (cram_glob_re_aux f r)))
+                       | _ ->
+                         if N.eqb c (Npos (XO (XI (XO (XI (XO XH))))))
+                         then Seq ((Star Any), (cram_glob_re_aux f r))
+                         else if N.eqb c (Npos (XI (XI (XI (XI (XI XH))))))
+                              then Seq (Any, (cram_glob_re_aux f r))
+                              else Seq ((Chr c), (cram_glob_re_aux f r)))
+                    | _ ->
+                      if N.eqb c (Npos (XO (XI (XO (XI (XO XH))))))
+                      then Seq ((Star Any), (cram_glob_re_aux f r))
+                      else if N.eqb c (Npos (XI (XI (XI (XI (XI XH))))))
+                           then Seq (Any, (cram_glob_re_aux f r))
+                           else Seq ((Chr c), (cram_glob_re_aux f r)))
+                 | _ ->
+                   if N.eqb c (Npos (XO (XI (XO (XI (XO XH))))))
+                   then Seq ((Star Any), (cram_glob_re_aux f r))
+                   else if N.eqb c (Npos (XI (XI (XI (XI (XI XH))))))
+                        then Seq (Any, (cram_glob_re_aux f r))
+                        else Seq ((Chr c), (cram_glob_re_aux f r)))
+              | _ ->
+                if N.eqb c (Npos (XO (XI (XO (XI (XO XH))))))
+                then Seq ((Star Any), (cram_glob_re_aux f r))
+                else if N.eqb c (Npos (XI (XI (XI (XI (XI XH))))))
+                     then Seq (Any, (cram_glob_re_aux f r))
+                     else Seq ((Chr c), (cram_glob_re_aux f r)))
+           | _ ->
+             if N.eqb c (Npos (XO (XI (XO (XI (XO XH))))))
+             then Seq ((Star Any), (cram_glob_re_aux f r))
+             else if N.eqb c (Npos (XI (XI (XI (XI (XI XH))))))
+                  then Seq (Any, (cram_glob_re_aux f r))
+                  else Seq ((Chr c), (cram_glob_re_aux f r)))))
+
+(** val cram_glob_re : n list -> re **)
+
+let cram_glob_re p =
+  cram_glob_re_aux (S (length p)) p
+
+(** val is_meta : n -> bool **)
+
+let is_meta c =
+  existsb (N.eqb c) ((Npos (XO (XO (XI (XI (XI (XO XH))))))) :: ((Npos (XO
+    (XI (XI (XI (XO XH)))))) :: ((Npos (XI (XI (XO (XI (XO XH)))))) :: ((Npos
+    (XO (XI (XO (XI (XO XH)))))) :: ((Npos (XI (XI (XI (XI (XI
+    XH)))))) :: ((Npos (XO (XO (XO (XI (XO XH)))))) :: ((Npos (XI (XO (XO (XI
+    (XO XH)))))) :: ((Npos (XO (XO (XI (XI (XI (XI XH))))))) :: ((Npos (XI
+    (XI (XO (XI (XI (XO XH))))))) :: ((Npos (XI (XO (XI (XI (XI (XO
+    XH))))))) :: ((Npos (XI (XI (XO (XI (XI (XI XH))))))) :: ((Npos (XI (XO
+    (XI (XI (XI (XI XH))))))) :: ((Npos (XO (XI (XI (XI (XI (XO
+    XH))))))) :: ((Npos (XO (XO (XI (XO (XO XH)))))) :: ((Npos (XI (XI (XO
+    (XO (XO XH)))))) :: ((Npos (XO (XI (XI (XO (XO XH)))))) :: ((Npos (XI (XO
+    (XI (XI (XO XH)))))) :: ((Npos (XO (XI (XI (XI (XI (XI
+    XH))))))) :: []))))))))))))))))))
+
+(** val lit : n -> n list **)
+
+let lit c =
+  if is_meta c
+  then (Npos (XO (XO (XI (XI (XI (XO XH))))))) :: (c :: [])
+  else c :: []
+
+(** val print : re -> n list **)
+
+let rec print = function
+| Emp ->
+  (Npos (XI (XI (XO (XI (XI (XO XH))))))) :: ((Npos (XO (XI (XI (XI (XI (XO
+    XH))))))) :: (N0 :: ((Npos (XI (XO (XI (XI (XO XH)))))) :: ((Npos (XI (XI
+    (XI (XI (XI (XI (XI (XI (XI (XI (XI (XI (XI (XI (XI (XI (XO (XO (XO (XO
+    XH))))))))))))))))))))) :: ((Npos (XI (XO (XI (XI (XI (XO
+    XH))))))) :: [])))))
+| Eps ->
+  (Npos (XO (XO (XO (XI (XO XH)))))) :: ((Npos (XI (XI (XI (XI (XI
+    XH)))))) :: ((Npos (XO (XI (XO (XI (XI XH)))))) :: ((Npos (XI (XO (XO (XI
+    (XO XH)))))) :: [])))
+| Chr c -> lit c
+| Any -> (Npos (XO (XI (XI (XI (XO XH)))))) :: []
+| Cls (neg, cs) ->
+  app ((Npos (XI (XI (XO (XI (XI (XO XH))))))) :: [])
+    (app (if neg then (Npos (XO (XI (XI (XI (XI (XO XH))))))) :: [] else [])
+      (app (flat_map lit cs) ((Npos (XI (XO (XI (XI (XI (XO XH))))))) :: [])))
+| Seq (a, b) -> app (print a) (print b)
+| Alt (a, b) ->
+  app ((Npos (XO (XO (XO (XI (XO XH)))))) :: ((Npos (XI (XI (XI (XI (XI
+    XH)))))) :: ((Npos (XO (XI (XO (XI (XI XH)))))) :: [])))
+    (app (print a)
+      (app ((Npos (XO (XO (XI (XI (XI (XI XH))))))) :: [])
+        (app (print b) ((Npos (XI (XO (XO (XI (XO XH)))))) :: []))))
+| Star a ->
+  app ((Npos (XO (XO (XO (XI (XO XH)))))) :: ((Npos (XI (XI (XI (XI (XI
+    XH)))))) :: ((Npos (XO (XI (XO (XI (XI XH)))))) :: [])))
+    (app (print a) ((Npos (XI (XO (XO (XI (XO XH)))))) :: ((Npos (XO (XI (XO
+      (XI (XO XH)))))) :: [])))
+
+(** val print_top : re -> n list **)
+
+let print_top r = match r with
+| Alt (a, b) ->
+  app (print a)
+    (app ((Npos (XO (XO (XI (XI (XI (XI XH))))))) :: []) (print b))
+| _ -> print r
 
 (** val make_exp : bool -> bool -> (nat -> bool) -> nat exp **)
 
